@@ -66,6 +66,13 @@ Theorem C13_mint_split_exact : forall i o,
 Proof. exact mint_split_exact. Qed.
 Print Assumptions C13_mint_split_exact.
 
+(* nothing lost: what is minted in the two tokens together is exactly the provision due *)
+Theorem C13_mint_total_is_provision : forall i o,
+  0 <= mi_fee_supply i -> 0 <= mi_bond_supply i -> 0 <= mi_ratio i <= P -> 0 <= secs_of i ->
+  mint_fn i = Some o -> provision_of i = Some (minted o).
+Proof. exact mint_total_is_provision. Qed.
+Print Assumptions C13_mint_total_is_provision.
+
 (* transfer ban, bank level: a plain send of a send-disabled denom is rejected with no change.
    The clause "whichever message requests it" (pool deposits, swaps, proxy/lockup sends, IBC) is
    NOT a theorem: those handlers are exercised by the ban scenarios of the harness and monitored
